@@ -11,7 +11,7 @@ from ..model import qual
 from ..symx import Expander
 from ..anf import R
 from .. import anf, lints
-from .common import struct_ob, formula_ob, guard, last_return
+from .common import struct_ob, formula_ob, guard, last_return, U
 from . import mcmc
 from ..report import AnalysisError
 
@@ -57,8 +57,8 @@ def run(prog, tier):
     if hits:
         for rel, fn, call in hits:
             obs.append(struct_ob("none-value", f"{rel}:{fn.name}", False,
-                                 f"`{ast.unparse(call)}` returns None (in-place method) but its value is used",
-                                 rel, call.lineno, detail=ast.unparse(call.func)))
+                                 f"`{U(call)}` returns None (in-place method) but its value is used",
+                                 rel, call.lineno, detail=U(call.func)))
     else:
         obs.append(struct_ob("none-value", "inference/mcmc/*", True, "", "inference/mcmc", 0,
                              slots={"functions_scanned": n_fn}))
@@ -69,13 +69,13 @@ def run(prog, tier):
 
     # marginal pass-through
     c, gm = prog.method("MarkovChain", "get_marginal")
-    calls = [n for n in ast.walk(gm) if isinstance(n, ast.Call) and ast.unparse(n.func) == "self.get_parameter"]
+    calls = [n for n in ast.walk(gm) if isinstance(n, ast.Call) and U(n.func) == "self.get_parameter"]
     for k, call in enumerate(calls):
-        kw = {x.arg: ast.unparse(x.value) for x in call.keywords}
-        pos = [ast.unparse(a) for a in call.args]
+        kw = {x.arg: U(x.value) for x in call.keywords}
+        pos = [U(a) for a in call.args]
         ok = pos[:1] == ["index"] and kw.get("burn") == "burn" and kw.get("thin") == "thin"
         obs.append(struct_ob("marginal-passthrough", qual(c, gm) + f"[{k}]", ok,
-                             f"the marginal must be built from get_parameter(index, burn=burn, thin=thin); call is `{ast.unparse(call)}`",
+                             f"the marginal must be built from get_parameter(index, burn=burn, thin=thin); call is `{U(call)}`",
                              c.module.relpath, call.lineno))
     for rel, mi in prog.by_rel.items():
         for n in lints.unraised_exceptions(mi.tree):
@@ -109,18 +109,18 @@ def _slice_form(c, fn, st, gname):
         n = subs[0]
         sl = n.slice.elts[0] if isinstance(n.slice, ast.Tuple) else n.slice
         if not (isinstance(sl.lower, ast.Name) and sl.lower.id == burn):
-            problems.append(f"lower bound is `{ast.unparse(sl.lower) if sl.lower else None}` not `{burn}`")
+            problems.append(f"lower bound is `{U(sl.lower) if sl.lower else None}` not `{burn}`")
         if sl.upper is not None:
-            problems.append(f"upper bound `{ast.unparse(sl.upper)}` present")
+            problems.append(f"upper bound `{U(sl.upper)}` present")
         if not (isinstance(sl.step, ast.Name) and sl.step.id == thin):
-            problems.append(f"step is `{ast.unparse(sl.step) if sl.step else None}` not `{thin}`")
+            problems.append(f"step is `{U(sl.step) if sl.step else None}` not `{thin}`")
         base = n.value
         if isinstance(want_store, tuple):
-            okb = isinstance(base, ast.Attribute) and base.attr == want_store[1] and f"self.{want_store[0]}" in ast.unparse(fn)
+            okb = isinstance(base, ast.Attribute) and base.attr == want_store[1] and f"self.{want_store[0]}" in U(fn)
         else:
-            okb = ast.unparse(base) == f"self.{want_store}"
+            okb = U(base) == f"self.{want_store}"
         if not okb:
-            problems.append(f"slice applied to `{ast.unparse(base)}` not to the store {want_store}")
+            problems.append(f"slice applied to `{U(base)}` not to the store {want_store}")
     # burn / thin used nowhere else
     uses = [x for x in ast.walk(fn) if isinstance(x, ast.Name) and x.id in (burn, thin) and isinstance(x.ctx, ast.Load)]
     if len(uses) != 2 * max(len(subs), 1) and len(subs) == 1:
@@ -128,7 +128,7 @@ def _slice_form(c, fn, st, gname):
     if any(isinstance(x, ast.Name) and x.id in (burn, thin) and isinstance(x.ctx, ast.Store) for x in ast.walk(fn)):
         problems.append("burn/thin are reassigned")
     return struct_ob("slice-form", qual(c, fn), not problems, "; ".join(problems), rel, fn.lineno,
-                     slots={"store": str(want_store), "slice": ast.unparse(subs[0]) if subs else None})
+                     slots={"store": str(want_store), "slice": U(subs[0]) if subs else None})
 
 
 def _row_index(sub):
@@ -136,7 +136,7 @@ def _row_index(sub):
     first = sl.elts[0] if isinstance(sl, ast.Tuple) else sl
     rest = sl.elts[1:] if isinstance(sl, ast.Tuple) else []
     rest_ok = all(isinstance(r, ast.Slice) and r.lower is None and r.upper is None and r.step is None for r in rest)
-    return ast.unparse(first), rest_ok
+    return U(first), rest_ok
 
 
 def _parallel(prog, c, fn):
@@ -148,8 +148,8 @@ def _parallel(prog, c, fn):
     def visit(stmts, cond):
         for st in stmts:
             if isinstance(st, ast.If):
-                visit(st.body, cond + [ast.unparse(st.test)])
-                visit(st.orelse, cond + ["not " + ast.unparse(st.test)])
+                visit(st.body, cond + [U(st.test)])
+                visit(st.orelse, cond + ["not " + U(st.test)])
                 continue
             if not isinstance(st, ast.Assign) or len(st.targets) != 1 or not isinstance(st.targets[0], ast.Name):
                 continue
@@ -157,19 +157,19 @@ def _parallel(prog, c, fn):
             if name not in ops:
                 continue
             v = st.value
-            if isinstance(v, ast.Call) and ast.unparse(v.func) in ("self.get_sample", "self.get_probabilities"):
-                kw = {k.arg: ast.unparse(k.value) for k in v.keywords}
+            if isinstance(v, ast.Call) and U(v.func) in ("self.get_sample", "self.get_probabilities"):
+                kw = {k.arg: U(k.value) for k in v.keywords}
                 want = "self.get_sample" if name == "sample" else "self.get_probabilities"
-                if ast.unparse(v.func) != want:
-                    problems.append(f"`{name}` is read with {ast.unparse(v.func)}")
+                if U(v.func) != want:
+                    problems.append(f"`{name}` is read with {U(v.func)}")
                 ops[name].append(("get", kw.get("burn", "<default>"), kw.get("thin", "1"), tuple(cond)))
             elif isinstance(v, ast.Subscript) and isinstance(v.value, ast.Name) and v.value.id == name:
                 idx, rest_ok = _row_index(v)
                 if not rest_ok:
-                    problems.append(f"`{ast.unparse(st)}` indexes more than the row axis")
+                    problems.append(f"`{U(st)}` indexes more than the row axis")
                 ops[name].append(("idx", idx, None, tuple(cond)))
             else:
-                problems.append(f"`{ast.unparse(st)}` is not a row re-indexing of `{name}`")
+                problems.append(f"`{U(st)}` is not a row re-indexing of `{name}`")
     visit(fn.body, [])
 
     def normalise(lst):
@@ -194,7 +194,7 @@ def _parallel(prog, c, fn):
     okc, why = False, ""
     try:
         sorter = src["sorter"][0]
-        c1 = ast.unparse(sorter) == "probs.argsort()"
+        c1 = U(sorter) == "probs.argsort()"
         ex = Expander(prog, c.module, c)
         cut = ex.eval(src["cutoff"][0], {"probs": R.sym("probs"), "interval": R.sym("interval")})
         want = anf.fn_("int", R.sym("size(probs)") * (R.const(1) - R.sym("interval")))
